@@ -237,6 +237,7 @@ func verifCanary(label string, cond bool) {}
 //@   props C21
 //@   requires n != nil && n.c != nil
 //@   assigns allbut Node
+//@   canary ensures [C21:canary-nonempty] err == nil ==> len(result0) > 0
 //@   ensures [C21:refs] err == nil ==> forall j int :: { at(result0, j) } off(result0) <= j && j < off(result0) + len(result0) ==> refOK(at(result0, j))
 //@ func (*Node).browseNext
 //@   props C21
@@ -279,7 +280,7 @@ func verifCanary(label string, cond bool) {}
 //@ func (*Client).sendWithTimeout
 //@   props C21
 //@   assumed
-//@   assigns allbut Subscription monitoredItem
+//@   assigns allbut Subscription monitoredItem Client.pendingAcks Client.subs []*ua.SubscriptionAcknowledgement map[uint32]*Subscription
 //@   calls h nonnil
 //@   callarg h 0 respOK(cbarg)
 //@   ensures h != nil && err == nil ==> ran_h && res_h == nil
@@ -349,3 +350,67 @@ func verifCanary(label string, cond bool) {}
 //@ func github.com/gopcua/opcua/stats.RecordError
 //@   assumed
 //@   assigns nothing
+
+// ---------------------------------------------------------------------------
+// C21, publish loop (client_sub.go): what it does with a PublishResponse
+// ---------------------------------------------------------------------------
+
+// invariant of the acknowledgement queue and of the subscription table of a client
+//@ pred acksInv(c *Client) := c != nil &&
+//@      (forall i int :: { at(c.pendingAcks, i) } off(c.pendingAcks) <= i && i < off(c.pendingAcks) + len(c.pendingAcks) ==> at(c.pendingAcks, i) != nil)
+//@ pred subsInv(c *Client) := c != nil &&
+//@      (forall k uint32 :: { in(k, c.subs) } in(k, c.subs) ==> c.subs[k] != nil)
+
+//@ func (*Client).publishTimeout
+//@   props C21
+//@   assumed
+//@   assigns nothing
+
+//@ func (*Client).handleAcks_NeedsSubMuxLock
+//@   props C21
+//@   requires acksInv(c)
+//@   assigns c.pendingAcks
+//@   ensures [C21:acks] acksInv(c)
+//@   loop 0 invariant -1 <= rangeindex && rangeindex < len(c.pendingAcks) && (len(c.pendingAcks) == len(res) || len(c.pendingAcks) == 0)
+//@   loop 0 invariant arr(notAcked) == 0 || fresh(notAcked)
+//@   loop 0 invariant forall i int :: { at(c.pendingAcks, i) } off(c.pendingAcks) <= i && i < off(c.pendingAcks) + len(c.pendingAcks) ==> at(c.pendingAcks, i) != nil
+//@   loop 0 invariant forall i int :: { at(notAcked, i) } off(notAcked) <= i && i < off(notAcked) + len(notAcked) ==> at(notAcked, i) != nil
+
+//@ func (*Client).handleNotification_NeedsSubMuxLock
+//@   props C21
+//@   requires acksInv(c) && sub != nil && pubOK(res)
+//@   assigns c.pendingAcks, sub.nextSeq, sub.lastSeq, elems(c.pendingAcks)
+//@   ensures [C21:acks] acksInv(c)
+
+//@ func (*Client).sendPublishRequest
+//@   props C21
+//@   requires c != nil
+//@   assigns allbut Subscription monitoredItem Client.pendingAcks Client.subs []*ua.SubscriptionAcknowledgement map[uint32]*Subscription
+//@   assigns held(&c.subMux), released(&c.subMux)
+//@   ensures [C21:response] result1 == nil ==> pubOK(result0)
+
+//@ func (*Subscription).notify
+//@   props C21
+//@   requires s != nil && ctx != nil
+//@   assigns nothing
+
+//@ func (*Client).notifySubscription
+//@   props C21
+//@   requires c != nil && sub != nil && ctx != nil
+//@   assigns nothing
+//@   loop 0 invariant sub != nil
+
+//@ func (*Client).notifySubscriptionOfError
+//@   props C21
+//@   requires c != nil
+//@   assigns held(&c.subMux), released(&c.subMux)
+
+//@ func (*Client).notifyAllSubscriptionsOfError
+//@   props C21
+//@   requires c != nil
+//@   assigns held(&c.subMux), released(&c.subMux)
+
+//@ func (*Client).publish
+//@   props C21
+//@   requires acksInv(c) && subsInv(c) && ctx != nil
+//@   assigns *
